@@ -4,9 +4,13 @@ pub mod c03;
 pub mod c04;
 pub mod c05;
 pub mod c06;
+pub mod c07;
+pub mod c08;
 pub mod c09;
 pub mod c10;
 pub mod c11;
+pub mod c12;
+pub mod c13;
 pub mod c14;
 pub mod c15;
 pub mod c16;
@@ -25,9 +29,13 @@ pub fn by_id(id: &str) -> Option<Box<dyn Prop>> {
         "C04" => Some(Box::new(c04::C04::default())),
         "C05" => Some(Box::new(c05::C05::default())),
         "C06" => Some(Box::new(c06::C06::default())),
+        "C07" => Some(Box::new(c07::C07::default())),
+        "C08" => Some(Box::new(c08::C08::default())),
         "C09" => Some(Box::new(c09::C09::default())),
         "C10" => Some(Box::new(c10::C10::default())),
         "C11" => Some(Box::new(c11::C11::default())),
+        "C12" => Some(Box::new(c12::C12::default())),
+        "C13" => Some(Box::new(c13::C13::default())),
         "C14" => Some(Box::new(c14::C14::default())),
         "C15" => Some(Box::new(c15::C15::default())),
         "C16" => Some(Box::new(c16::C16::default())),
